@@ -67,6 +67,9 @@ pub enum Stream {
 	},
 	/// a spatial track (listener B, emitter e2) inside - optionally through a plain track -
 	/// a spatial track (listener A, emitter e1); the listeners may be dropped
+	/// the listener turns its head between two orientations given by quaternions of either sign
+	/// (q and -q are the same rotation) while the emitter stays on its right
+	Turn { a_deg: f32, target: u8, dur_chunks: usize, ibs: usize },
 	Nested { a: [f32; 3], b: [f32; 3], e1: [f32; 3], e2: [f32; 3], drop_a: Option<usize>, drop_b: Option<usize>, callbacks: usize, ibs: usize, mid_plain: bool },
 }
 
@@ -85,7 +88,14 @@ fn rand_quat(rng: &mut Rng) -> [f32; 4] {
 fn gen_case(seed: u64, index: u64, tier: Tier) -> Case {
 	let mut rng = Rng::new(seed);
 	let v3 = |rng: &mut Rng, r: f64| -> [f32; 3] { [rng.frange(-r, r) as f32, rng.frange(-r, r) as f32, rng.frange(-r, r) as f32] };
-	let stream = if index % 6 == 5 {
+	let stream = if index % 12 == 11 {
+		Stream::Turn {
+			a_deg: rng.frange(1.0, 35.0) as f32,
+			target: rng.below(3) as u8,
+			dur_chunks: rng.usize_below(4),
+			ibs: *rng.pick(&[4usize, 32, 128]),
+		}
+	} else if index % 6 == 5 {
 		let callbacks = rng.urange(3, 8);
 		Stream::Nested {
 			a: v3(&mut rng, 5.0),
@@ -334,6 +344,35 @@ fn run_geometry(geo: &Geo, relation: u8, aux: &[f32; 4], res: &mut CaseResult, t
 					res.fail(Violation::new("geometry", "not-invariant-under-rigid-motion", format!("{geo:?}: gains ({gl}, {gr}); after a rigid motion ({ml}, {mr})")));
 				}
 				res.hit("geometry.rigid_motion");
+			}
+		}
+		4 if proper => {
+			// the configured curve shapes the roll-off: an ease-in curve (power >= 1) keeps the level at or
+			// below the linear roll-off at the same distance, an ease-out curve at or above it
+			// (and the other way round for powers below 1)
+			let (kind, power) = match geo.attenuation {
+				Some(EasingSpec::InPowi(p)) => (0, p as f64),
+				Some(EasingSpec::InPowf(p)) => (0, p),
+				Some(EasingSpec::OutPowi(p)) => (1, p as f64),
+				Some(EasingSpec::OutPowf(p)) => (1, p),
+				_ => return,
+			};
+			if power <= 0.0 || power == 1.0 {
+				return;
+			}
+			let g0 = Geo { strength: 0.0, ..*geo };
+			let lin = Geo { attenuation: Some(EasingSpec::Linear), ..g0 };
+			if let (Ok(c), Ok(l)) = (render_geo(&g0, (0.5, 0.5)), render_geo(&lin, (0.5, 0.5))) {
+				let below = (kind == 0) == (power > 1.0);
+				let bad = if below { c.0 > l.0 * (1.0 + 1e-4) + 1e-7 } else { c.0 < l.0 * (1.0 - 1e-4) - 1e-7 };
+				if bad {
+					res.fail(Violation::new(
+						"geometry",
+						"attenuation-curve-not-the-configured-one",
+						format!("{g0:?} at distance {d}: level {} with the configured curve, {} with a linear one: the configured curve must stay {} the linear roll-off", c.0, l.0, if below { "at or below" } else { "at or above" }),
+					));
+				}
+				res.hit("geometry.curve_vs_linear");
 			}
 		}
 		3 => {
@@ -743,11 +782,88 @@ fn run_nested(a: [f32; 3], b: [f32; 3], e1: [f32; 3], e2: [f32; 3], drop_a: Opti
 	drop((grand, inner, mid, outer, la, lb, m));
 }
 
+fn run_turn(a_deg: f32, target: u8, dur_chunks: usize, ibs: usize, res: &mut CaseResult, trace: &mut Hasher64, beh: &mut Hasher64) {
+	let Some(mut m) = manager(ibs) else { return };
+	let device = m.backend_mut().device.clone();
+	let a = a_deg.to_radians();
+	let q1 = Quat::from_rotation_y(a);
+	let q2 = match target {
+		// the mirror-image yaw, written with the other sign (the same rotation as yaw(-a))
+		0 => -Quat::from_rotation_y(-a),
+		// the very same orientation, written with the other sign
+		1 => -q1,
+		_ => Quat::from_rotation_y(-a),
+	};
+	let built = monitor::catch(move || {
+		let l = m.add_listener(Vec3::ZERO, q1).unwrap();
+		let mut t = m
+			.add_spatial_sub_track(&l, Vec3::new(5.0, 0.0, 0.0), SpatialTrackBuilder::new().attenuation_function(None).spatialization_strength(1.0))
+			.unwrap();
+		t.play(dc(0.5, 0.5)).unwrap();
+		(m, l, t)
+	});
+	let Ok((m, mut l, t)) = built else { return };
+	let mut out = Vec::new();
+	let mut frames_checked = 0u64;
+	for cb in 0..(6 + dur_chunks) {
+		if cb == 2 {
+			l.set_orientation(
+				q2,
+				Tween {
+					duration: std::time::Duration::from_secs_f64(dur_chunks as f64 * ibs as f64 / 8000.0),
+					..Default::default()
+				},
+			);
+		}
+		let rep = device.callback(ibs, 2, &mut out);
+		if let Some(p) = rep.panic {
+			res.fail(Violation::new("finite", format!("audio-panic: {}", panic_signature(&p)), format!("callback {cb}: {p}")));
+			return;
+		}
+		if cb == 0 {
+			continue;
+		}
+		for i in 0..ibs {
+			let (lft, rgt) = (out[2 * i], out[2 * i + 1]);
+			trace.f32(lft);
+			trace.f32(rgt);
+			// the emitter is on the listener's right during the whole (short-way) turn: the right ear is
+			// favoured in every frame, and the sound never drops out
+			if !(rgt >= lft - 1e-5) || !(rgt > 0.1) || !lft.is_finite() || !rgt.is_finite() {
+				res.fail(Violation::new(
+					"geometry",
+					"wrong-ear-favoured-during-turn",
+					format!(
+						"callback {cb} frame {i}: output ({lft}, {rgt}) with the emitter 5 units to the listener's right; the listener turns from yaw {a_deg} deg to {} over {dur_chunks} internal buffers, never facing away",
+						match target {
+							0 => format!("yaw {} deg given as the negated quaternion", -a_deg),
+							1 => "the same orientation given as the negated quaternion".to_string(),
+							_ => format!("yaw {} deg", -a_deg),
+						}
+					),
+				));
+				return;
+			}
+			frames_checked += 1;
+		}
+	}
+	res.count("turn_frames_checked", frames_checked);
+	res.nontrivial = true;
+	res.callbacks = (6 + dur_chunks) as u64;
+	res.hit("type.turn");
+	beh.u64(target as u64 * 8 + dur_chunks as u64);
+	drop((t, l, m));
+}
+
 pub fn run_case(case: &Case) -> CaseResult {
 	let mut res = CaseResult::default();
 	let mut trace = Hasher64::new();
 	let mut beh = Hasher64::new();
 	match &case.stream {
+		Stream::Turn { a_deg, target, dur_chunks, ibs } => {
+			run_turn(*a_deg, *target, *dur_chunks, *ibs, &mut res, &mut trace, &mut beh);
+			beh.u64(77);
+		}
 		Stream::Nested { a, b, e1, e2, drop_a, drop_b, callbacks, ibs, mid_plain } => {
 			run_nested(*a, *b, *e1, *e2, *drop_a, *drop_b, *callbacks, *ibs, *mid_plain, &mut res, &mut trace, &mut beh);
 			beh.u64(*mid_plain as u64 + 10);
@@ -775,7 +891,7 @@ impl Check for C15 {
 		CheckInfo {
 			id: "C15",
 			level: "exploration",
-			rule: "three streams. nested (1/6): a spatial track (listener B) inside - directly or through a plain track - a spatial track (listener A) with a plain track below it, each with a FromListenerDistance probe, either listener dropped at a seeded callback; history (1/6): seeded history over {add listener (the first one gets a spatial track, optionally with a nested non-spatial child, each with a FromListenerDistance probe parameter and a DC sound), drop the listener, tween the listener position, tween the emitter position, callback} at a seeded internal buffer size - simulated on the device with a per-chunk reference of both positions; geometry (2/3): generated listener pose, emitter position, distance range (proper, equal, inverted, zero-based), attenuation curve, strength, edge classes (listener and emitter coincident; emitter exactly on one of the listener's ears), rendered through the manager and related to a second rendering (farther along the same ray, mirrored, rigidly moved, stereo input) - plain input generation evaluated as cross-run invariants; non-trivial = every case renders; distinct = hash of the outputs / of the per-callback (listener present, chunks) sequence",
+			rule: "four streams. turn (1/12): the listener turns between two yaw angles given by quaternions of either sign (q / -q), instantly or over a few internal buffers, with the emitter on its right: every frame favours the right ear; nested (1/6): a spatial track (listener B) inside - directly or through a plain track - a spatial track (listener A) with a plain track below it, each with a FromListenerDistance probe, either listener dropped at a seeded callback; history (1/6): seeded history over {add listener (the first one gets a spatial track, optionally with a nested non-spatial child, each with a FromListenerDistance probe parameter and a DC sound), drop the listener, tween the listener position, tween the emitter position, callback} at a seeded internal buffer size - simulated on the device with a per-chunk reference of both positions; geometry (2/3): generated listener pose, emitter position, distance range (proper, equal, inverted, zero-based), attenuation curve, strength, edge classes (listener and emitter coincident; emitter exactly on one of the listener's ears), rendered through the manager and related to a second rendering (farther along the same ray, mirrored, rigidly moved, stereo input, the same scene with a linear roll-off) - plain input generation evaluated as cross-run invariants; non-trivial = every case renders; distinct = hash of the outputs / of the per-callback (listener present, chunks) sequence",
 			assumptions: vec![
 				"the geometric relations (monotonicity, ear gains, mirror, rigid motion, stereo pass-through) are input-generation checks, not schedule- or fault-dependent; they are included because the same harness renders them, and are stated as such".into(),
 				"tolerances: 1e-4 on gains, 2e-3 / 3e-3 for mirrored / moved scenes (f32 quaternion arithmetic), rigid-motion comparison skipped within 1e-3 of a distance limit".into(),
